@@ -80,6 +80,13 @@ func genC04(w *World, res *CheckResult) {
 		res.Obls = append(res.Obls, selectObls(tmp.Obls, `^optimizer\.in(Array|Range)\[.*\]/(safe:|post:shape$)`)...)
 		res.Functions = append(res.Functions, tmp.Functions...)
 	}
+	// (1c) string unescaping in the lexer runs outside any recover (parser.Parse calls lexer.Lex directly)
+	{
+		tmp := &CheckResult{}
+		genLexerPositions(w, tmp)
+		res.Obls = append(res.Obls, selectObls(tmp.Obls, `^lexer\.unescapeChar/(safe:|loop:|pre-sat|cover:returns)`)...)
+		res.Functions = append(res.Functions, "lexer.unescapeChar")
+	}
 	// (2) every node kind has a case in the type switches that run outside a recover
 	genSwitchCoverage(w, res, "checker.visitor.visit", 1)
 	// (3) recover scopes: result shape
